@@ -171,18 +171,18 @@ pub open spec fn pwf(t: &Topic) -> bool {
 }
 
 // the send `msgs` was handed, as one batch, to partition `pid` and to no other; every other partition is identical
-pub open spec fn stored_in(o: &Topic, f: &Topic, pid: u32, msgs: Seq<Message>, ok: bool) -> bool {
-    &&& o.partitions@.contains_key(pid)
-    &&& f.partitions@.dom() =~= o.partitions@.dom()
-    &&& f.partitions@[pid].partition_id == o.partitions@[pid].partition_id
-    &&& f.partitions@[pid].storage.appends() =~= o.partitions@[pid].storage.appends().push(
-            AppendCall { partition_id: pid, messages: msgs, ok })
-    &&& forall|k: u32| k != pid && #[trigger] o.partitions@.contains_key(k) ==> f.partitions@[k] == o.partitions@[k]
+// (o, f: the partitions map before and after)
+pub open spec fn stored_in(o: Map<u32, Partition>, f: Map<u32, Partition>, pid: u32, msgs: Seq<Message>, ok: bool) -> bool {
+    &&& o.contains_key(pid)
+    &&& f.dom() =~= o.dom()
+    &&& f[pid].partition_id == o[pid].partition_id
+    &&& f[pid].storage.appends() =~= o[pid].storage.appends().push(AppendCall { partition_id: pid, messages: msgs, ok })
+    &&& forall|k: u32| k != pid && #[trigger] o.contains_key(k) ==> f[k] == o[k]
 }
 
 // no partition was touched
-pub open spec fn nothing_stored(o: &Topic, f: &Topic) -> bool {
-    f.partitions@ =~= o.partitions@
+pub open spec fn nothing_stored(o: Map<u32, Partition>, f: Map<u32, Partition>) -> bool {
+    f =~= o
 }
 
 // the limit of the property statement: "a topic with a size limit is at or above that limit"
